@@ -11,7 +11,9 @@ history that task consumed.  Checked per task:
   isolation    the interleaved stream is bit-identical to a solo re-execution of
                the same stream (library RNG restored to the recorded state for
                the one estimator family that draws from it);
-  repetition   the batch run repeated gives bit-identical output;
+  repetition   the batch run repeated gives bit-identical output; for filters whose only
+               carried state is the quaternion (Madgwick, AQUA, Fourati, AngularRate) a replay of
+               the same samples through the same object gives the first pass again;
   determinism  (runner) whole run re-executed in-process and in a fresh
                interpreter with another PYTHONHASHSEED: equal digests.
 """
@@ -24,6 +26,8 @@ from .. import boot, world as W, consumers as C, kernel as K
 from . import common as CM
 
 TOL = 1e-12
+# filters that carry no estimator state besides the quaternion the caller hands back
+STATE_FREE = {'madgwick_imu', 'madgwick_marg', 'aqua_imu', 'aqua_marg', 'fourati', 'angular'}
 POOL = ['madgwick_imu', 'madgwick_marg', 'mahony_imu', 'mahony_marg', 'ekf_imu', 'ekf_marg', 'ukf',
         'aqua_imu', 'aqua_marg', 'fourati', 'roleq', 'angular', 'oleq', 'flae', 'fkf',
         'complementary_imu', 'complementary_marg']
@@ -189,7 +193,11 @@ class Check:
             else:
                 self._refine(viol, t, t.out, b, stats)
             # 3b. isolation: interleaved vs solo re-execution (RNG restored to the recorded states)
-            solo = self._solo(t, own_params(t), hist, pristine, dip, q0, rng_states=t.rng_before)
+            replay = []
+            solo = self._solo(t, own_params(t), hist, pristine, dip, q0, rng_states=t.rng_before, replay=replay)
+            if replay:
+                k, o1, o2 = replay[0]
+                viol.append(self._v(t, 'replay-ne-first-pass', k, f'sample {k}: the same object fed the same samples again from the same initial attitude answers differently: ' + self._diff(o1, o2)))
             for k in range(t.first, t.pos):
                 if not CM.same_bits(self._o(t.out[k]), self._o(solo[k])):
                     viol.append(self._v(t, 'interleaved-ne-solo', k, f'tick {k}: output amid other tasks differs from the solo re-execution: ' + self._diff(t.out[k], solo[k])))
@@ -270,7 +278,7 @@ class Check:
                 viol.append(self._v(t, 'stream-ne-batch', k, f'tick {k}: |stream-batch|={d:.3g}: ' + self._diff(o, b[k])))
                 return
 
-    def _solo(self, t, p, hist, pristine, dip, q0, seed=None, rng_states=None):
+    def _solo(self, t, p, hist, pristine, dip, q0, seed=None, rng_states=None, replay=None):
         """Re-execute task t's stream alone on private copies of its history."""
         st = t.stride
         gyr = pristine['gyr'][::st].copy()
@@ -304,6 +312,24 @@ class Check:
             except Exception as e:      # noqa: BLE001
                 out[k] = K.Crash(e)
                 if t.kind.recursive:
+                    break
+        if replay is not None and t.kind.name in STATE_FREE and not t.kind.uses_library_rng:
+            # a filter whose only carried state is the quaternion it is handed must answer a replay of the same
+            # samples through the *same object*, from the same initial attitude, exactly as the first time
+            q = None if q0 is None else np.array(q0, dtype=float)
+            for k in range(t.first, t.pos):
+                g = gyr[k] if 'g' in t.kind.sensors else None
+                a = acc[k] if 'a' in t.kind.sensors else None
+                m = mag[k] if 'm' in t.kind.sensors else None
+                try:
+                    r = t.kind.step(inst, p, q, g, a, m, C.call_dt(p, t.dt))
+                    o2 = K.out_to_array(r)
+                    if r is not None:
+                        q = r if isinstance(r, np.ndarray) else o2
+                except Exception as e:      # noqa: BLE001
+                    o2 = K.Refusal('') if isinstance(e, ValueError) and not isinstance(e, np.linalg.LinAlgError) else K.Crash(e)
+                if not CM.same_bits(out[k], o2):
+                    replay.append((k, out[k], o2))
                     break
         return out
 
